@@ -51,6 +51,9 @@ enum Ev {
     Rotate,
     /// the host latches, on its own, a key this guest never obtained (the status names an unknown key id)
     LatchOther,
+    /// a wake-up notification reaches the key keeper (what a provisioning-status query with the notify header sends)
+    /// while it waits for the host's answer; the host itself changes nothing
+    Notify,
     Fault(Fault),
     Noop,
 }
@@ -116,7 +119,7 @@ impl HostModel {
                 self.issued += 1;
             }
             Ev::Fault(f) => self.fault = Some(f),
-            Ev::Noop => {}
+            Ev::Notify | Ev::Noop => {}
         }
     }
     fn status_doc(&self) -> Value {
@@ -570,6 +573,10 @@ fn run_history(sh: &Arc<Shared>, host: &[MockHost], hist: &[Ev]) -> HistOut {
     for (i, e) in hist.iter().enumerate() {
         let last = i + 1 == hist.len();
         sh.model.lock().unwrap().apply(*e);
+        if *e == Ev::Notify {
+            let kk = agent.shared.get_key_keeper_shared_state();
+            let _ = agent.handle.block_on(async move { kk.notify().await });
+        }
         let before = agent.observe();
         let fault_armed = sh.model.lock().unwrap().fault;
         let acquires_before = sh.model.lock().unwrap().issued;
@@ -700,7 +707,7 @@ fn main() {
         let _ = BPF.set((Arc::new(std::sync::Mutex::new(bpf)), fd));
     }
 
-    let mut alphabet: Vec<Ev> = vec![Ev::Noop, Ev::V1(0), Ev::V1(1), Ev::V1(2), Ev::V2Enabled(true), Ev::V2Enabled(false), Ev::Rotate, Ev::LatchOther];
+    let mut alphabet: Vec<Ev> = vec![Ev::Noop, Ev::V1(0), Ev::V1(1), Ev::V1(2), Ev::V2Enabled(true), Ev::V2Enabled(false), Ev::Rotate, Ev::LatchOther, Ev::Notify];
     let rule_vals: Vec<Rule> = if thorough { vec![Rule::Absent, Rule::Audit, Rule::Enforce, Rule::Disabled] } else { vec![Rule::Absent, Rule::Audit, Rule::Enforce] };
     for ep in 0..3u8 {
         for r in &rule_vals {
